@@ -195,6 +195,19 @@ impl GenerationPass for AvailableValuePass {
                             !matches!(value, AvailableValue::RegisterWithScalar(reg, _) if overwritten.contains(reg))
                         })
                         .collect();
+                    // A called function may use everything below the stack pointer for its own
+                    // frame, so slots below it do not survive a call
+                    if node.calls_to().is_some() {
+                        let curr_stack = node.reg_values_in().stack_offset();
+                        map = map
+                            .into_iter()
+                            .filter(|(location, _)| match (location, curr_stack) {
+                                (MemoryLocation::StackOffset(slot), Some(curr)) => *slot >= curr,
+                                (MemoryLocation::StackOffset(_), None) => false,
+                                _ => true,
+                            })
+                            .collect();
+                    }
                     // A store through the stack pointer invalidates every slot it overlaps
                     // (byte and half stores, and word stores that are not aligned with a slot)
                     if let ParserNode::Store(store) = &node.node() {
